@@ -355,7 +355,8 @@ def shrink(prop, r, kind, budget=150, valid=None):
     best = r
     steps = 0
     improved = True
-    while improved and steps < budget:
+    deadline = time.time() + float(os.environ.get("VERIF_SHRINK_SECONDS", "45"))
+    while improved and steps < budget and time.time() < deadline:
         improved = False
         toks = best["case"].split(" ")
         for i in range(1, len(toks)):
@@ -363,10 +364,13 @@ def shrink(prop, r, kind, budget=150, valid=None):
             if valid:
                 cands = [c for c in cands if valid(c)]
             cands = cands[: max(0, budget - steps)]
-            if not cands:
+            if not cands or time.time() > deadline:
                 continue
+            # a bounded number of candidates per call and a short per-case limit: shrinking must never take longer than
+            # finding did (candidates of very long case lines - hundreds of sources, 2^16 lines - can be slow or crash)
+            cands = cands[:6 if len(best["case"]) > 2000 else 24]
             steps += len(cands)
-            rs = run_cases(prop, cands, tag="shrink", shards=4)
+            rs = run_cases(prop, cands, tag="shrink", shards=4, limit_ms=1500)
             # a shrunk case must fail the SAME way: never accept a candidate on which either side only reports that
             # the case line itself is malformed (bad-op, the generators' own cross-checks, pool / skip markers)
             junk = ("bad-op", "gen-vlq-mismatch", "bad-op-case", "pool-mismatch", "pool-missing", "skip")
